@@ -125,6 +125,10 @@ def _install() -> None:
                         ev.update(ok=bool(ok), post=_project(self))
                         s["events"].append(ev)
     BasePrimary.to = to
+    # the concrete primaries carry their own copy of `to` (assigned for documentation purposes at import time)
+    for sub in _all_subclasses(BasePrimary):
+        if "to" in sub.__dict__:
+            sub.to = to
 
     orig_reg = BasePrimary.register_buffer
 
